@@ -369,7 +369,9 @@ def CANON_MTIM : Nat := 0x4444444444444444
 def CANON_CTIM : Nat := 0x5555555555555555
 
 def fileTypeOf (st : Stat) : Nat :=
-  if st.isDir then Gen.Wasi.WASI_FILE_TYPE_DIRECTORY else Gen.Wasi.WASI_FILE_TYPE_REGULAR_FILE
+  if st.isDir then Gen.Wasi.WASI_FILE_TYPE_DIRECTORY
+  else if st.isFifo then Gen.Wasi.WASI_FILE_TYPE_UNKNOWN       -- `wasiFileTypeFromMode` has no FIFO case
+  else Gen.Wasi.WASI_FILE_TYPE_REGULAR_FILE
 
 /-- value of the C variable a filestat row stores -/
 def filestatField (st : Stat) : String → Nat
@@ -492,6 +494,7 @@ def stepRO {σ} (cfg : Cfg) (H : Host σ) (abi : Abi) (s : St σ) (c : ROCall) :
       | .ok (.ok st) =>
         let (base, inh) :=
           if st.isDir then (Gen.Wasi.WASI_RIGHTS_DIRECTORY_BASE, Gen.Wasi.WASI_RIGHTS_DIRECTORY_INHERITING)
+          else if st.isFifo then (Gen.Wasi.WASI_RIGHTS_ALL, Gen.Wasi.WASI_RIGHTS_ALL)
           else (Gen.Wasi.WASI_RIGHTS_REGULAR_FILE_BASE, Gen.Wasi.WASI_RIGHTS_REGULAR_FILE_INHERITING)
         let flagsR : R Nat :=
           if d.fd ≥ 0 then
